@@ -99,4 +99,8 @@ var Registry = map[string]func(c *Ctx, arg string) error{
 		RunTxFlow(c)
 		return nil
 	},
+	"lazy": func(c *Ctx, arg string) error {
+		RunLazy(c)
+		return nil
+	},
 }
